@@ -148,3 +148,119 @@ Example C01_negated_profile_is_a_reason :
   detect neg_ctx (Group false [ICond (Single false 0); ICond (Single true 1)]) 0 = mkRes true [1] [(1, [0])] /\
   anchors neg_ctx (Group false [ICond (Single false 0); ICond (Single true 1)]) 0 = true.
 Proof. split; vm_compute; reflexivity. Qed.
+
+(* ====================================================================================
+   HISTORIES.  A DetectionRule object is parsed once and then asked about every gene with hits of
+   every record of the input; gene names repeat between records.  The property quantifies over
+   (rule, arrangement): what was asked before must not matter.  [detect_history c evals] is the run
+   of one rule value [c] over a sequence of evaluations (gene, arrangement); it is the function the
+   check evaluates for its history cases (fn 5 of run_C01), position by position against what the
+   SAME real rule object answered at that point of its life.
+   ==================================================================================== *)
+
+(* at every position of every history the answer is the answer to that evaluation asked alone *)
+Theorem C01_history_pointwise : forall c evals i e, nth_error evals i = Some e ->
+  nth_error (detect_history c evals) i = Some (detect (snd e) c (fst e)).
+Proof. exact detect_history_nth. Qed.
+Print Assumptions C01_history_pointwise.
+
+(* ... so it does not depend on what was evaluated before or after it: two histories that contain
+   the same evaluation [e] anywhere answer it identically *)
+Theorem C01_history_independent : forall c before1 after1 before2 after2 e,
+  nth_error (detect_history c (before1 ++ e :: after1)) (length before1) =
+  nth_error (detect_history c (before2 ++ e :: after2)) (length before2).
+Proof. exact detect_history_independent. Qed.
+Print Assumptions C01_history_independent.
+
+(* ... and it is the documented meaning: truth value, reason profiles, anchoring and ancillary hits
+   of the (rule, arrangement, gene) of that position alone *)
+Theorem C01_history_meaning : forall c evals, evals_known evals -> forall i e, nth_error evals i = Some e ->
+  exists r, nth_error (detect_history c evals) i = Some r /\
+            met r = holds (snd e) c (fst e) false /\
+            matches r = reasons (snd e) c (fst e) false /\
+            is_anchor r = anchors (snd e) c (fst e) /\
+            (forall o p, anc_mem (ancs r) o p <-> anc_has (snd e) c (fst e) false o p = true).
+Proof. exact detect_history_meaning. Qed.
+Print Assumptions C01_history_meaning.
+
+(* the executable run function itself: on every input that decodes to a history, fn 5 (the history
+   run the harness calls) prints the number of evaluations followed by exactly what fn 1 (the single
+   evaluation) prints for each of them *)
+Theorem C01_history_run : forall l evals r c,
+  dList (dPair dZ dCtx) l = Some (evals, r) -> dCond (length r) r = Some (c, []) ->
+  run_C01 5 l = zlen evals :: flat_map (single_out c) evals.
+Proof. exact run_fn5_history. Qed.
+Print Assumptions C01_history_run.
+
+Theorem C01_single_run : forall l cx r c g,
+  dCtx l = Some (cx, r) -> dCond (length r) r = Some (c, [g]) -> run_C01 1 l = single_out c (g, cx).
+Proof. exact run_fn1_single. Qed.
+Print Assumptions C01_single_run.
+
+(* the same for apply_cluster_rules run over several records with one rule: what is recorded for
+   record i is what [recorded_spec] says about record i alone *)
+Theorem C01_apply_history : forall c records, (forall evals, In evals records -> evals_known evals) ->
+  forall i evals, nth_error records i = Some evals ->
+  exists a, nth_error (apply_history c records) i = Some a /\
+            forall o p, anc_mem a o p <-> recorded_spec c evals o p = true.
+Proof. exact apply_history_meaning. Qed.
+Print Assumptions C01_apply_history.
+
+(* non-vacuity: two records with identically named genes (cutoff 10000; profiles q=0 KS=1 AT=2 x=3)
+     A: G1 [0,3000) q   G2 [4000,9000) KS, AT   G3 [10000,12000) x
+     B: G1 [0,3000) q   G2 [4000,9000) KS       G3 [10000,12000) x
+   `q and cds(KS and AT)` and `q and not cds(KS and AT)` asked for G1, G2, G3 of A, then of B, then G1
+   of A again: G1 anchors in A and not in B (resp. the other way round), whatever came before *)
+Definition hist_feats : list (Z * loc) :=
+  [(1, [mkPart 0 3000 1]); (2, [mkPart 4000 9000 1]); (3, [mkPart 10000 12000 1])].
+Definition hist_A : ctx := mkCtx 10000 None hist_feats [(1, [(0, 200)]); (2, [(1, 200); (2, 200)]); (3, [(3, 200)])].
+Definition hist_B : ctx := mkCtx 10000 None hist_feats [(1, [(0, 200)]); (2, [(1, 200)]); (3, [(3, 200)])].
+Definition hist_rule (neg : bool) : cond :=
+  Group false [IAnd [Single false 0; Cds neg [IAnd [Single false 1; Single false 2]]]].
+Definition hist_evals : list (Z * ctx) := [(1, hist_A); (2, hist_A); (3, hist_A); (1, hist_B); (2, hist_B); (3, hist_B); (1, hist_A)].
+Example C01_history_nonvacuous :
+  evals_known hist_evals /\
+  map is_anchor (detect_history (hist_rule false) hist_evals) = [true; true; false; false; false; false; true] /\
+  map is_anchor (detect_history (hist_rule true) hist_evals) = [false; false; false; true; false; false; false] /\
+  map met (detect_history (hist_rule false) hist_evals) = [true; true; true; false; false; false; true] /\
+  apply_history (hist_rule false) [[(1, hist_A); (2, hist_A); (3, hist_A)]; [(1, hist_B); (2, hist_B); (3, hist_B)]]
+    = [[(1, [0]); (2, [1; 2])]; []].
+Proof.
+  split.
+  - intros e He o Ho. cbn in He.
+    repeat (destruct He as [<-|He]; [exact Ho|]). destruct He.
+  - repeat split; vm_compute; reflexivity.
+Qed.
+
+(* ====================================================================================
+   THE RULE'S CUTOFF OVER THE LIFE OF A RULE OBJECT (hidden state outside the evaluator): the parser
+   and every Ruleset construction multiply the cutoff ATTRIBUTE of the rule object in place.
+   ==================================================================================== *)
+
+(* guard under which "the rule's cutoff" is what the rule text says, for every history of Ruleset
+   constructions over the object: all multipliers are 1 (every non-fungal run) *)
+Theorem C01_cutoff_unit_multipliers : forall kb ms, (forall m, In m ms -> m = (1, 1)) ->
+  cutoff_life kb (1, 1) ms = repeat (kb * 1000) (S (length ms)).
+Proof. exact cutoff_life_unit. Qed.
+Print Assumptions C01_cutoff_unit_multipliers.
+
+(* without the guard the statement "a Ruleset with multiplier m evaluates its rules with cutoff
+   text * m" is false: Ruleset.from_files(multipliers=m) scales twice (finding C01-H1) ... *)
+Theorem C01_cutoff_scaled_once_refuted : exists kb m, 0 < fst m /\ 0 < snd m /\
+  last (cutoff_life kb m [m]) 0 <> scale m (kb * 1000).
+Proof. exact from_files_scales_twice. Qed.
+Print Assumptions C01_cutoff_scaled_once_refuted.
+
+(* ... and so does every further Ruleset built over the same rule objects *)
+Theorem C01_cutoff_ruleset_copy_refuted : exists kb m, 0 < fst m /\ 0 < snd m /\
+  cutoff_life kb (1, 1) [m; m] <> [kb * 1000; scale m (kb * 1000); scale m (kb * 1000)].
+Proof. exact ruleset_copy_rescales. Qed.
+Print Assumptions C01_cutoff_ruleset_copy_refuted.
+
+(* hmm_detection.get_ruleset: parsed and wrapped with unit multipliers, then ONE
+   copy_with_replacements with the fungal multipliers - scaled once, as intended *)
+Example C01_cutoff_hmm_detection_path :
+  cutoff_life 10 (1, 1) [(1, 1); (3, 2)] = [10000; 10000; 15000] /\
+  cutoff_life 10 (3, 2) [(3, 2)] = [15000; 22500] /\
+  cutoff_life 10 (1, 1) [(3, 2); (3, 2)] = [10000; 15000; 22500].
+Proof. repeat split; vm_compute; reflexivity. Qed.
